@@ -353,7 +353,7 @@ def verify_unit(repo, unit_dir, workdir, canary=True, rlimit=None):
     out['verified_fns'] = [f['label'] for f in g.fns if f['label'] not in failed] if not pr['undecided'] else []
     if canary and not out['undecided']:
         try:
-            gc, ctext = extract.generate(repo, tpl, canary=True, relaxed=out.get('relaxed_fns', []), auto_items=auto_items)
+            gc, ctext = extract.generate(repo, tpl, canary=True, relaxed=list(out.get('relaxed_fns', [])) + list(out.get('annotations_dropped_for', [])), auto_items=auto_items)
         except extract.Undecided as e:
             out['undecided'].append('canary generation: ' + str(e))
             gc = None
